@@ -10,7 +10,8 @@ from contracts.c19 import CLASSES as DDE_CLASSES, CONTRACTS as DDE_CONTRACTS
 F = "pyrates/backend/base/base_backend.py"
 CLASSES = dict(DDE_CLASSES)
 
-ABS = {"np.empty": A.np_empty("row"), "np.zeros": A.np_empty("row"), "np.round": A.iround, "round": A.iround}
+ABS = {"np.empty": A.np_empty("row"), "np.zeros": A.np_empty("row"), "np.round": A.iround, "round": A.iround,
+       "np.array": A.row_copy, "np.copy": A.row_copy}
 
 # callee contracts available to the solver loops (modular: DDEHistory.update is used through its contract)
 CALLEE_CONTRACTS = {c["target"].split("::")[1]: c for c in DDE_CONTRACTS if c["name"] == "DDEHistory.update"}
